@@ -42,6 +42,12 @@ def family(rng, n, L, alpha, sub=0.12, indel=0.04, maxindel=6, tree=True):
     return seqs
 
 
+def star(rng, n, L, alpha, sub=0.25, indel=0.03):
+    """n sequences each mutated directly from one random root: a loose family without internal structure"""
+    root = rand_seq(rng, alpha, L)
+    return [mutate(rng, root, alpha, sub, indel) for _ in range(n)]
+
+
 def names(rng, n, style="plain"):
     out = []
     seen = set()
